@@ -9,6 +9,7 @@ Record bec := { be_kind : nat; be_in : Z; be_out : Z; be_cur : Z }.
 Record turn := { tu_cur : nat; tu_subs : list (nat * nat * bool); tu_be : list bec }.
 Inductive ccase :=
 | CMembers (pre : tbl) (ops : list mop) (rs : list res) (post : tbl)
+| COpenMembers (pre : tbl) (ops : list mop) (rs : list res) (post : tbl)    (* membership calls released together with the signals that open the next hand *)
 | CSeats (pre : sm) (ops : list sop) (rs : list res) (post : sm)
 | CActions (turns : list turn) (sum_pre sum_post : Z) (settled hands : nat)
 | CNothing.
@@ -114,6 +115,16 @@ Definition members_diag (pre : tbl) (ops : list mop) (rs : list res) (post : tbl
        then (if lin_dfs (2 * length ops + 2) pre (combine ops rs) post then 0%nat else 3%nat)
   else 0%nat.
 
+(* while a hand opens: the opening itself moves buttons and waiting flags, so the orders are not replayed; what must hold is the
+   bookkeeping invariant and the accounting of players and chips *)
+Definition open_members_diag (pre : tbl) (ops : list mop) (rs : list res) (post : tbl) : nat :=
+  if negb (seat_inv pre) then 0%nat
+  else if negb (Nat.eqb (length ops) (length rs)) then 9%nat
+  else if negb (seat_inv post) then 1%nat
+  else if negb (accounting_ok pre (combine ops rs) post) then 2%nat
+  else if negb (bank_ok pre (combine ops rs) post) then 5%nat
+  else 0%nat.
+
 (* ---------- seat manager ---------- *)
 Definition sm_ids (s : sm) : list nat := flat_map (fun o => match o with Some p => [sp_id p] | None => [] end) (sm_seats s).
 Definition sjoins (o : sop) : list nat := match o with SORandom ids => ids | SOAssign id _ => [id] | SORemove _ => [] end.
@@ -168,6 +179,7 @@ Fixpoint turns_diag (i : nat) (l : list turn) : option (nat * nat) :=
 Definition check_case (c : ccase) : list (nat * nat) :=
   match c with
   | CMembers pre ops rs post => match members_diag pre ops rs post with O => [] | d => [(3%nat, d)] end
+  | COpenMembers pre ops rs post => match open_members_diag pre ops rs post with O => [] | d => [(3%nat, d)] end
   | CSeats pre ops rs post => match seats_diag pre ops rs post with O => [] | d => [(3%nat, d)] end
   | CActions turns s0 s1 settled hands =>
       (match turns_diag 0 turns with Some (i, d) => [(3%nat, (i * 10 + d)%nat)] | None => [] end)
